@@ -80,12 +80,16 @@ def cases(draw):
 
 
 def rounds(x: float):
-    """admissible integer roundings of x (both neighbours for an exact half); [None] for non finite"""
+    """admissible integer roundings of x; [None] for non finite.  An exact half may be rounded to even (numpy.rint, what the
+    statement's 'round' means in numpy) or away from zero (the schoolbook rule): both are admitted, nothing else - never
+    'toward zero' (1.5 -> 1, -1.5 -> -1)."""
     if math.isnan(x) or math.isinf(x):
         return [None]
     f = math.floor(x)
     if x - f == 0.5:
-        return [f, f + 1]
+        even = f if f % 2 == 0 else f + 1
+        away = f + 1 if x > 0 else f
+        return sorted({even, away})
     return [int(np.rint(x))]
 
 
@@ -111,7 +115,7 @@ def judge(ctx: Ctx, dl, vl, dr, vm, conf, dmin, dmax, thr, off, tag=""):
                 ctx.violation("C07/other-bits-changed", f"pixel {(r, c)} {before}->{after}")
                 continue
             x = float(dl[r, c])
-            cands = rounds(c + x)
+            cands = [None if k is None else c + k for k in rounds(x)]  # the DISPARITY is rounded, then added to the column
             if len(cands) == 2:
                 n_half += 1
             allowed = set()
